@@ -196,27 +196,101 @@ func (p *Proc) cancelledByCtl() bool { return p.cancelled }
 // shellLoop mimics the interactive shell: one Execute per statement text,
 // AutoCommit off, an error does not end the session.
 func (k *Kernel) shellLoop(ctx context.Context, proc *query.Processor, spec *ProcSpec) error {
+	out := func(format string, args ...interface{}) {
+		_ = proc.Tx.Session.WriteToStdout(fmt.Sprintf(format, args...))
+	}
 	for i, src := range spec.Statements {
 		if ctx.Err() != nil {
 			return query.ConvertContextError(ctx.Err())
 		}
 		stmts, _, e := parser.Parse(src, "", false, proc.Tx.Flags.AnsiQuotes)
 		if e != nil {
-			proc.LogError(query.NewSyntaxError(e.(*parser.SyntaxError)).Error())
+			out("@PARSEERR %d %s\n", i, query.NewSyntaxError(e.(*parser.SyntaxError)).Error())
 			continue
 		}
-		_ = proc.Tx.Session.WriteToStdout(fmt.Sprintf("@S %d\n", i))
-		flow, e := proc.Execute(ctx, stmts)
-		if e != nil {
-			if ex, ok := e.(*query.ForcedExit); ok {
-				return ex
+		rep := 1
+		if i < len(spec.Repeats) && spec.Repeats[i] > 1 {
+			rep = spec.Repeats[i]
+		}
+		before := astString(stmts)
+		for r := 0; r < rep; r++ {
+			out("@S %d.%d\n", i, r)
+			flow, e := proc.Execute(ctx, stmts)
+			if e != nil {
+				if ex, ok := e.(*query.ForcedExit); ok {
+					return ex
+				}
+				if ctx.Err() != nil {
+					return e
+				}
+				out("@ERR %d.%d %s\n", i, r, strings.ReplaceAll(k.Norm(e.Error()), "\n", " | "))
+				continue
 			}
-			_ = proc.Tx.Session.WriteToStdout(fmt.Sprintf("@ERR %d %s\n", i, strings.ReplaceAll(k.Norm(e.Error()), "\n", " | ")))
-			continue
+			if flow == query.Exit {
+				return nil
+			}
 		}
-		if flow == query.Exit {
-			break
+		if after := astString(stmts); after != before {
+			out("@ASTCHANGED %d\n  before: %s\n  after:  %s\n", i, before, after)
 		}
 	}
+	out("@Z 0\n")
 	return nil
+}
+
+// astString renders every printable clause of a statement list (the String()
+// of each parser node that has one), without addresses, so that two calls can
+// be compared.
+func astString(v interface{}) string {
+	var b strings.Builder
+	func() {
+		defer func() {
+			if r := recover(); r != nil {
+				fmt.Fprintf(&b, "<panic %v>", r)
+			}
+		}()
+		astWalk(reflect.ValueOf(v), &b, 0)
+	}()
+	return b.String()
+}
+
+func astWalk(v reflect.Value, b *strings.Builder, depth int) {
+	if !v.IsValid() || depth > 14 {
+		return
+	}
+	if v.CanInterface() && v.Kind() != reflect.Slice {
+		if (v.Kind() == reflect.Interface || v.Kind() == reflect.Ptr) && v.IsNil() {
+			return
+		}
+		if s, ok := v.Interface().(fmt.Stringer); ok && strings.Contains(v.Type().PkgPath(), "csvq/lib/parser") {
+			b.WriteString("{" + s.String() + "}")
+			return
+		}
+	}
+	switch v.Kind() {
+	case reflect.Interface, reflect.Ptr:
+		if !v.IsNil() {
+			astWalk(v.Elem(), b, depth+1)
+		}
+	case reflect.Struct:
+		b.WriteString(v.Type().Name() + "(")
+		for i := 0; i < v.NumField(); i++ {
+			if v.Type().Field(i).PkgPath != "" {
+				continue // unexported
+			}
+			astWalk(v.Field(i), b, depth+1)
+		}
+		b.WriteString(")")
+	case reflect.Slice, reflect.Array:
+		for i := 0; i < v.Len(); i++ {
+			astWalk(v.Index(i), b, depth+1)
+			b.WriteString(";")
+		}
+	case reflect.String:
+		b.WriteString(v.String())
+	case reflect.Int, reflect.Int64, reflect.Int32:
+		fmt.Fprintf(b, "%d", v.Int())
+	case reflect.Bool:
+		fmt.Fprintf(b, "%v", v.Bool())
+	}
 }
